@@ -454,6 +454,33 @@ Definition entry_points (p : program) : list fundef := filter fn_entry p.
 Definition unsafe_entry_points (p : program) : list (string * option (list string)) :=
   map (fun fd => (fn_name fd, mutated_params p fd)) (filter (fun fd => negb (safe p fd)) (entry_points p)).
 
+(* Confirmed defects of /repo (each reproduced dynamically by harness/c19.py and
+   recorded as a known finding C19/<function>/<parameter>): entry points that really do
+   modify a caller's array, with the parameters concerned.  The generated obligation
+   says: every entry point is safe, except that these may modify (at most) these. *)
+Definition accepted_unsafe : list (string * list string) :=
+  [("SIR_heterogeneous_pairwise", ["SkSl0"; "SkIl0"]);
+   ("SIS_effective_degree", ["Ssi0"; "Isi0"]);
+   ("SIR_effective_degree", ["S_si0"])]%string.
+Fixpoint accepted_params (l : list (string * list string)) (f : string) : list string :=
+  match l with
+  | [] => []
+  | (g, ps) :: l' => if String.eqb g f then ps else accepted_params l' f
+  end.
+Definition smem (a : string) (l : list string) : bool := existsb (String.eqb a) l.
+Definition ok_entry (p : program) (fd : fundef) : bool :=
+  match mutated_params p fd with
+  | Some ps => forallb (fun q => smem q (accepted_params accepted_unsafe (fn_name fd))) ps
+  | None => false
+  end.
+(* the k-th of m interleaved chunks of a list (used to split the obligation over
+   several files that are compiled in parallel) *)
+Fixpoint chunk_of {A} (m k i : nat) (l : list A) : list A :=
+  match l with
+  | [] => []
+  | a :: l' => if Nat.eqb (Nat.modulo i m) k then a :: chunk_of m k (S i) l' else chunk_of m k (S i) l'
+  end.
+
 (* --------------------------------------- abstract heap semantics (specification) *)
 (* Objects have an identity (a location), hold references to other objects
    ([kids]) and own or share a buffer ([base l] = the location owning the buffer of
